@@ -136,14 +136,9 @@ func checkSetBeforeToggle(r *Run, cg *CallGraph) {
 func checkReversalSeesEarlierParts(r *Run, op *packages.Package, cg *CallGraph) {
 	const rule = "C02-R5-reversal-bindings"
 	info := op.TypesInfo
-	var reverser *types.Func
-	for fn := range cg.Decl {
-		if cg.PkgOf[fn] == op && fn.Name() == "reversePatternElements" {
-			reverser = fn
-		}
-	}
+	reverser := patternReverser(op)
 	if reverser == nil {
-		r.Undecide("C02-R5: optimize.reversePatternElements not found")
+		r.Undecide("C02-R5: the pattern reverser (a function of package optimize that assigns Direction = Direction.Reverse()) was not found")
 		return
 	}
 	n := 0
@@ -206,8 +201,13 @@ func checkReversalSeesEarlierParts(r *Run, op *packages.Package, cg *CallGraph) 
 					if !ok {
 						return true
 					}
+					// the call that records the part's symbols: any call that is handed the declared-symbols map and the part
+					// and does not itself lead to the reverser
 					callee := calleeOf(info, call)
-					if callee == nil || !strings.HasPrefix(callee.Name(), "declare") {
+					if callee == nil {
+						return true
+					}
+					if _, reaches := cg.Reach([]*types.Func{callee}, nil)[reverser]; reaches {
 						return true
 					}
 					hasMap, hasPart := false, false
@@ -264,8 +264,13 @@ func checkWithCarryReadsAlias(r *Run, op *packages.Package, cg *CallGraph) {
 		return
 	}
 	n := 0
+	reverserFn := patternReverser(op)
 	for fn, fd := range cg.Decl {
-		if cg.PkgOf[fn] != op || fd.Body == nil || !strings.HasPrefix(fn.Name(), "reverseInboundTraversal") {
+		if cg.PkgOf[fn] != op || fd.Body == nil || reverserFn == nil {
+			continue
+		}
+		// the functions of the reversal rule: those from which the pattern reverser is reachable
+		if _, reaches := cg.Reach([]*types.Func{fn}, nil)[reverserFn]; !reaches {
 			continue
 		}
 		ast.Inspect(fd.Body, func(x ast.Node) bool {
@@ -373,4 +378,36 @@ func checkWithCarryReadsAlias(r *Run, op *packages.Package, cg *CallGraph) {
 	if n == 0 {
 		r.Undecide("C02-R5: no carry of the reversal rule's bound symbols over a WITH projection found")
 	}
+}
+
+// patternReverser: the function of package optimize that reverses a pattern in place — found by the assignment
+// `x.Direction = x.Direction.Reverse()`, not by its private name.
+func patternReverser(op *packages.Package) *types.Func {
+	info := op.TypesInfo
+	var found *types.Func
+	for _, fd := range declsWhere(op, func(fd *ast.FuncDecl) bool {
+		hit := false
+		ast.Inspect(fd.Body, func(n ast.Node) bool {
+			as, ok := n.(*ast.AssignStmt)
+			if !ok || len(as.Lhs) != 1 || len(as.Rhs) != 1 {
+				return true
+			}
+			sel, ok := ast.Unparen(as.Lhs[0]).(*ast.SelectorExpr)
+			if !ok || sel.Sel.Name != "Direction" {
+				return true
+			}
+			if call, ok := ast.Unparen(as.Rhs[0]).(*ast.CallExpr); ok {
+				if cs, ok := call.Fun.(*ast.SelectorExpr); ok && cs.Sel.Name == "Reverse" {
+					hit = true
+				}
+			}
+			return true
+		})
+		return hit
+	}) {
+		if fn, ok := info.Defs[fd.Name].(*types.Func); ok && found == nil {
+			found = fn
+		}
+	}
+	return found
 }
